@@ -82,36 +82,53 @@ def cmpInt (v : PyVal) (k : Int) : Option Int :=
 
 def isSpaceTok (c : Char) : Bool := c == ' ' || c == '\n' || c == '\t' || c == '\r'
 
-/-- Python `str.strip()` with no argument strips Unicode whitespace; the four calls of
-    get_cleaned_token end up splitting on runs of \n \t \r and blanks and stripping each piece.
-    Model: split on those four characters, strip every piece of Python whitespace, drop empty
-    pieces created by adjacent separators, join with single blanks. -/
+/-- Python `str.strip()` with no argument strips Unicode whitespace (used by the parser ladder for
+    attribute / numeric readings, not by the token collapse any more) -/
 def pyIsSpace (c : Char) : Bool :=
   c == ' ' || (c.val ≥ 9 && c.val ≤ 13) || (c.val ≥ 28 && c.val ≤ 31) || c.val == 0x85 || c.val == 0xa0 ||
   c.val == 0x1680 || (c.val ≥ 0x2000 && c.val ≤ 0x200a) || c.val == 0x2028 || c.val == 0x2029 ||
   c.val == 0x202f || c.val == 0x205f || c.val == 0x3000
 
-def splitOnChar (c : Char) (s : List Char) : List (List Char) :=
-  let rec go (cur : List Char) (acc : List (List Char)) : List Char → List (List Char)
-    | [] => (cur.reverse :: acc).reverse
-    | x :: r => if x == c then go [] (cur.reverse :: acc) r else go (x :: cur) acc r
-  go [] [] s
+/-- split at every character satisfying `p` (`str.split(sep)` for a one-character separator) -/
+def splitP (p : Char → Bool) : List Char → List (List Char)
+  | [] => [[]]
+  | c :: r =>
+    if p c then [] :: splitP p r
+    else match splitP p r with
+      | w :: ws => (c :: w) :: ws
+      | [] => [[c]]
+
+def splitOnChar (c : Char) (s : List Char) : List (List Char) := splitP (· == c) s
 
 def stripL (s : List Char) : List Char := s.dropWhile pyIsSpace
 def strip (s : List Char) : List Char := (stripL (stripL s).reverse).reverse
 
-def joinSp (l : List (List Char)) : List Char :=
-  match l with
+/-- XML white space: the only characters `whiteSpace="collapse"` is about -/
+def isXs (c : Char) : Bool := c == ' ' || c == '\t' || c == '\n' || c == '\r'
+/-- `partial.strip(' \t\n\r')` -/
+def stripX (s : List Char) : List Char := ((s.dropWhile isXs).reverse.dropWhile isXs).reverse
+
+/-- `sep.join(l)` for a one-character separator -/
+def joinWith (c : Char) : List (List Char) → List Char
   | [] => []
-  | a :: r => r.foldl (fun acc x => acc ++ [' '] ++ x) a
+  | [a] => a
+  | a :: b :: r => a ++ c :: joinWith c (b :: r)
+
+def joinSp (l : List (List Char)) : List Char := joinWith ' ' l
+
+/-- one statement of get_cleaned_token: split at `c`, strip every piece of XML white space, join with blanks -/
+def tokenPass (c : Char) (s : List Char) : List Char := joinSp ((splitOnChar c s).map stripX)
 
 /-- util/core.py get_cleaned_token, statement by statement -/
-def cleanedToken (s : String) : String :=
-  let s1 := joinSp ((splitOnChar '\n' s.toList).map strip)
-  let s2 := joinSp ((splitOnChar '\t' s1).map strip)
-  let s3 := joinSp ((splitOnChar '\r' s2).map strip)
-  let s4 := joinSp (((splitOnChar ' ' s3).filter (· ≠ [])).map strip)
-  String.ofList s4
+def cleanedTokenL (s : List Char) : List Char :=
+  let s3 := tokenPass '\r' (tokenPass '\t' (tokenPass '\n' s))
+  joinSp (((splitOnChar ' ' s3).filter (· ≠ [])).map stripX)
+
+def cleanedToken (s : String) : String := String.ofList (cleanedTokenL s.toList)
+
+/-- XML Schema `whiteSpace="collapse"`: the maximal runs of non-white-space characters, joined by single blanks -/
+def wordsX (s : List Char) : List (List Char) := (splitP isXs s).filter (· ≠ [])
+def collapseX (s : List Char) : List Char := joinSp (wordsX s)
 
 /-! ### the validator -/
 abbrev Patterns := List (Nat × RE Char)
